@@ -449,3 +449,26 @@ def enqueue_vs_load_history():
                              min_size=4, max_size=14))
         return cfg, acts + tail
     return strat()
+
+
+def late_wake_history():
+    """The scheduler is held up spawning into a full bounded store pool while the clock moves on; a message that falls due in the
+    meantime must be attempted as soon as the scheduler is free again, not one stale sleep later."""
+    T = {'shape': 'raise_t', 'replies': [0]}
+    OK = {'shape': 'none'}
+
+    @st.composite
+    def strat(draw):
+        cfg = {'backend': draw(st.sampled_from(['dict', 'disk', 'shelf'])), 'backoff': [5], 'backoff_forever': True,
+               'store_pool': draw(st.sampled_from([1, 2])), 'relay_pool': None}
+        k = cfg['store_pool'] + 1
+        acts = []
+        for _ in range(k):
+            acts += [['enqueue', {'n': 1, 'sender': True, 'body': ''}], ['serve', T]]       # due at +5
+        acts += [['advance', draw(st.sampled_from([8, 10]))],                             # a little later
+                 ['enqueue', {'n': 1, 'sender': True, 'body': ''}], ['serve', T],         # due a little after the others
+                 ['tick']]                                                               # the first batch falls due: the pool fills up
+        acts += [['advance', draw(st.sampled_from([40, 80]))]]                            # time passes while the scheduler is blocked
+        tail = draw(st.lists(st.one_of(st.just(['storage']), st.just(['answer', OK]), st.just(['release', 0, OK])), min_size=4, max_size=12))
+        return cfg, acts + tail + [['storage'], ['answer', OK], ['storage'], ['answer', OK], ['storage'], ['answer', OK], ['storage']]
+    return strat()
